@@ -154,3 +154,78 @@ package graphql
 //@   at[C20] call defaultResolveTypeFn: assert arg0.Value == result && arg0.Context == eCtx.Context && arg1 == returnType
 //@   at[C20,C01] call executePlannedSelection: assert arg0 == eCtx && arg2 == result && arg3 == runtimeType && arg4 == path && arg3 != nil
 //@   at[C04] call executePlannedSelection: assert Schema.IsPossibleType_0(&eCtx.Schema, returnType, runtimeType)
+
+// ---- extension hooks (C17) ------------------------------------------------------------
+// Every Extension method and every finish function is a user callback: it may
+// return anything and may panic with a value of any dynamic type.
+
+//@ func handleExtensionsInits
+//@   props C17 C09:safety
+//@   nosafety
+//@   requires p != nil
+//@   opt invoke.Init=maypanic
+//@   nopanic
+
+//@ func handleExtensionsParseDidStart
+//@   props C17 C09:safety
+//@   nosafety
+//@   requires p != nil
+//@   opt invoke.ParseDidStart=maypanic
+//@   nopanic
+
+//@ func handleExtensionsParseDidStart$2
+//@   props C17 C09:safety
+//@   nosafety
+//@   opt callback.fn=maypanic
+//@   nopanic
+
+//@ func handleExtensionsValidationDidStart
+//@   props C17 C09:safety
+//@   nosafety
+//@   requires p != nil
+//@   opt invoke.ValidationDidStart=maypanic
+//@   nopanic
+
+//@ func handleExtensionsValidationDidStart$2
+//@   props C17 C09:safety
+//@   nosafety
+//@   opt callback.fn=maypanic
+//@   nopanic
+
+//@ func handleExtensionsExecutionDidStart
+//@   props C17 C09:safety
+//@   nosafety
+//@   requires p != nil
+//@   opt invoke.ExecutionDidStart=maypanic
+//@   nopanic
+
+//@ func handleExtensionsExecutionDidStart$2
+//@   props C17 C09:safety
+//@   nosafety
+//@   opt callback.fn=maypanic
+//@   nopanic
+
+//@ func handleExtensionsResolveFieldDidStart$2
+//@   props C17 C09:safety
+//@   nosafety
+//@   opt callback.fn=maypanic
+//@   nopanic
+
+//@ func addExtensionResults
+//@   props C17 C09:safety
+//@   nosafety
+//@   requires p != nil && result != nil
+//@   opt invoke.HasResult=maypanic
+//@   opt invoke.GetResult=maypanic
+//@   nopanic
+
+//@ func Do
+//@   props C17
+//@   nosafety
+//@   at return: assert calls("handleExtensionsParseDidStart") == calls("parseFinishFn")
+//@   at return: assert calls("handleExtensionsValidationDidStart") == calls("validationFinishFn")
+
+//@ func ExecutePlan
+//@   props C17
+//@   nosafety
+//@   at return: assert calls("handleExtensionsExecutionDidStart") == 0 || len(extErrs) != 0 || deferred() >= 1
